@@ -181,6 +181,11 @@ def flat_case_margin(a, b, r):
     if x is not None:
         extra = extra + [x]
     m = pair_margin(a, b, extra_points=())
+    one = ("L", "H", "S")
+    if a[0] in one and b[0] in one:
+        la = ("L", a[1], X.sub(a[2], a[1]) if a[0] == "S" else a[2])
+        lb = ("L", b[1], X.sub(b[2], b[1]) if b[0] == "S" else b[2])
+        m.see(math.sqrt(float(X.dist2(la, lb))), "carrier-carrier distance")
     # result / crossing points against both operands' extents
     extent_margin(a, extra + features(b)[0], m)
     extent_margin(b, extra + features(a)[0], m)
